@@ -82,6 +82,30 @@ def c02 (pre o : Obs) (rt : Option RType) (version nonce : String) (decodes : Bo
           else none
         | l => some s!"C02.ack_exact: expected exactly one request for the response, saw {l.length}"
 
+/-- C02 while the connection is stalled: the acknowledgement of a response of type `rt` waited in the request queue
+while lookups of another type filled it; after the connection resumed exactly one request of type `rt` reached the
+control plane, it echoes the nonce, and it is an ACK (new version, no error detail) or a NACK (last accepted version,
+error detail) as the response deserves; a rejected response left the type's cache and version alone -/
+def c02stalled (pre o : Obs) (rt : RType) (version nonce : String) (decodes : Bool) : Option String :=
+  let stateOk : Option String :=
+    if decodes then
+      (if (o.ver rt).1 = version then none else some s!"C02.ack_exact: acknowledged version should be {version}, is {(o.ver rt).1}")
+    else if (o.ver rt).1 ≠ (pre.ver rt).1 then some "C02.nack_frame: a rejected response changed the acknowledged version"
+    else if sortStr ((pre.cache rt).map (fun e => e.1 ++ "=" ++ e.2)) != sortStr ((o.cache rt).map (fun e => e.1 ++ "=" ++ e.2)) then
+      some "C02.nack_frame: a rejected response changed the cache"
+    else none
+  match stateOk with
+  | some m => some m
+  | none =>
+    match o.reqs.filter (fun q => q.rt = rt) with
+    | [q] =>
+      if q.nonce ≠ nonce then some s!"C02.ack_exact: nonce {q.nonce}, expected {nonce}"
+      else if some q.names ≠ pre.interest rt then some s!"C02.ack_exact: names {q.names}, expected the interest set {pre.interest rt}"
+      else if decodes && (q.version ≠ version || q.err) then some s!"C02.ack_exact: ACK must carry version {version} and no error detail (got {q.version}, err={q.err})"
+      else if !decodes && (q.version ≠ (pre.ver rt).1 || !q.err) then some s!"C02.ack_exact: NACK must carry the last accepted version {(pre.ver rt).1} and an error detail (got {q.version}, err={q.err})"
+      else none
+    | l => some s!"C02.ack_exact: the response (nonce {nonce}) was accepted by the client while the connection was stalled, but {l.length} requests of its type reached the control plane after the connection resumed, expected exactly one: the acknowledgement waiting in the request queue was lost or duplicated"
+
 /-- C03: every request lists the interest set of its type as it is after the step; identifies the node -/
 def c03 (o : Obs) (nodeOk : Bool) : Option String :=
   if !nodeOk then some "C03: a request does not identify the node" else
